@@ -157,3 +157,97 @@ def c16_check():
 
 
 CHECKS["C16"] = c16_check()
+
+
+def c19_check():
+    rule = ("four detectors over API histories decoded by the same model-based interpreter (every public entry point incl. re-init, vectors of changing length, the C array interface with *n from 0 to the buffer length through exact-size heap buffers, "
+            "masa_get_name into exact-size buffers, misuse steps): (1) libFuzzer, coverage-guided, 20-byte operation records, empty and seeded corpora, ASan+UBSan, LeakSanitizer after every iteration (registries emptied first, so anything still allocated is unreachable); "
+            "(2) rapidcheck histories under ASan+UBSan, each serialised before it runs; (3) live-byte accounting with replaced operator new/delete: repeating a masa_init leaves the live bytes unchanged and emptying the registries returns to the baseline; "
+            "(4) Valgrind memcheck (uninitialised reads, definite/indirect leaks) over saved histories. Non-trivial: a handle re-initialised and a vector/array length changed in one history (or >= 2 types with a re-used handle for the accounting). "
+            "evaluations = executed steps; only crash-/leak- artifacts, sanitizer aborts, accounting mismatches and Valgrind errors are violations.")
+    def workers(tier, seed, work):
+        quick = tier == "quick"
+        jobs = []
+        T = 50 if quick else 900
+        for i in range(6):
+            d = os.path.join(work, f"fuzz{i}")
+            corpus = os.path.join(d, "corpus"); art = os.path.join(d, "art")
+            os.makedirs(corpus, exist_ok=True); os.makedirs(art, exist_ok=True)
+            env = {"VERIF_STATS": os.path.join(d, "stats.json"), "VERIF_SEED": str(mix(seed, 100 + i)), "ASAN_OPTIONS": "detect_leaks=1:allocator_may_return_null=1", "UBSAN_OPTIONS": "print_stacktrace=1"}
+            if i % 2 == 0:
+                env["VERIF_SEED_CORPUS"] = corpus
+            jobs.append(dict(argv=[os.path.join(BIN, "fuzz_hist.asanexc"), f"-max_total_time={T}", f"-seed={1 + mix(seed, i) % 2000000000}", "-max_len=1280", "-len_control=0", "-detect_leaks=1", "-timeout=120", "-rss_limit_mb=4096",
+                                   f"-artifact_prefix={art}/", corpus], out=os.path.join(d, "stats.json"), faildir=d, env=env, own_artifacts=True, art=art))
+        for i in range(5):
+            d = os.path.join(work, f"rc{i}")
+            jobs.append(dict(argv=[os.path.join(BIN, "hist.asanexc"), "--prop", "C19", "--seed", str(mix(seed, 200 + i)), "--cases", str(250 if quick else 6000), "--maxsize", "100" if quick else "200",
+                                   "--out", os.path.join(d, "stats.json"), "--faildir", d], out=os.path.join(d, "stats.json"), faildir=d, env={"ASAN_OPTIONS": "detect_leaks=1"}))
+        for i in range(2):
+            d = os.path.join(work, f"leak{i}")
+            jobs.append(dict(argv=[os.path.join(BIN, "leak.exc"), "--seed", str(mix(seed, 300 + i)), "--cases", str(150 if quick else 4000), "--out", os.path.join(d, "stats.json"), "--faildir", d], out=os.path.join(d, "stats.json"), faildir=d))
+        for i in range(3):
+            d = os.path.join(work, f"vg{i}"); dump = os.path.join(d, "histories")
+            os.makedirs(dump, exist_ok=True)
+            n = 14 if quick else 700
+            cmd = (f"{BIN}/hist.exc --prop C19 --seed {mix(seed, 400 + i)} --cases {n * 3} --maxsize 60 --dump {n} --dump-dir {dump} --out {d}/stats.json --faildir {d} && "
+                   f"valgrind -q --error-exitcode=9 --leak-check=full --errors-for-leak-kinds=definite,indirect --track-origins=yes --num-callers=20 {BIN}/hist.exc --replay-many {dump} 2> {d}/valgrind.txt")
+            jobs.append(dict(argv=["sh", "-c", cmd], out=os.path.join(d, "stats.json"), faildir=d, own_artifacts=True, vgdir=dump))
+        return jobs
+    def collect(jobs, results):
+        out = []
+        for j, rc in results:
+            if "art" in j:
+                for fn in sorted(os.listdir(j["art"])):
+                    if fn.startswith("crash-") or fn.startswith("leak-"):
+                        out.append((f"libFuzzer artifact {fn} (sanitizer report in {j['faildir']}/stderr.txt)", os.path.join(j["art"], fn)))
+                if rc not in (0, "timeout") and not any(f.startswith(("crash-", "leak-", "oom-", "timeout-", "slow-unit-")) for f in os.listdir(j["art"])):
+                    out.append((f"fuzzer process ended with {rc} without an artifact", None))
+            if "vgdir" in j and rc not in (0, "timeout"):
+                out.append((f"Valgrind memcheck reported errors (exit {rc}), see valgrind.txt", j["vgdir"]))
+        return out
+    def replay(path):
+        b = os.path.basename(path.rstrip("/"))
+        if os.path.isdir(path):
+            return [["valgrind", "-q", "--error-exitcode=9", "--leak-check=full", "--errors-for-leak-kinds=definite,indirect", "--track-origins=yes", os.path.join(BIN, "hist.exc"), "--replay-many", path]]
+        if b.startswith(("crash-", "leak-", "oom-")):
+            return [[os.path.join(BIN, "fuzz_hist.asanexc"), "-detect_leaks=1", path]]
+        if b.startswith("fail_leak"):
+            return [[os.path.join(BIN, "leak.exc"), "--replay", path]]
+        return [[os.path.join(BIN, "hist.asanexc"), "--replay", path]]
+    return dict(id="C19", variants=["asanexc", "exc"], bins=["fuzz_hist.asanexc", "hist.asanexc", "hist.exc", "leak.exc"], workers=workers, collect=collect, replay_argv=replay, rule=rule,
+                assumptions=["clang 14 ASan/UBSan/LSan runtimes and Valgrind 3.19 memcheck are the detectors; MemorySanitizer is unusable here (uninstrumented libstdc++)",
+                             "every iteration starts from empty registries through the MASA_VERIF reset hook; the exception build lets misuse steps run in-process",
+                             "libFuzzer campaigns are pinned only approximately by -seed; the saved artifact is the reproducible unit",
+                             "timeout-/oom-/slow-unit- artifacts are load noise and are reported as inconclusive, never as violations"],
+                min_nontrivial={"quick": 20, "thorough": 500}, timeout={"quick": 1200, "thorough": 4000})
+
+
+CHECKS["C19"] = c19_check()
+
+
+def c18_check():
+    import sys
+    from vdriver import REPO, ROOT
+    script = os.path.join(ROOT, "tools/c18_check.py")
+    def workers(tier, seed, work):
+        jobs = []
+        n = 4 if tier == "quick" else NPROC
+        for i in range(n):
+            d = os.path.join(work, f"w{i}")
+            jobs.append(dict(argv=[sys.executable, script, "--repo", REPO, "--build", BUILD, "--seed", str(mix(seed, i)), "--cases", str(20000 if tier == "quick" else 400000), "--out", os.path.join(d, "stats.json"), "--faildir", d],
+                             out=os.path.join(d, "stats.json"), faildir=d))
+        return jobs
+    return dict(id="C18", variants=["base"], bins=[], workers=workers,
+                replay_argv=lambda path: [[sys.executable, script, "--repo", REPO, "--build", BUILD, "--seed", "1", "--cases", "2000", "--out", os.path.join(BUILD, "work", "C18_replay.json"), "--faildir", os.path.join(BUILD, "work", "C18_replay")]],
+                rule=("exhaustive static half: all bind(C, name=...) interface blocks of masa.f90 are parsed (name, dummy list, value attributes, c_double/c_int/c_char, assumed-size arrays, procedure dummies with their own interface, function vs "
+                      "subroutine) into the C prototype a Fortran processor calls; the C++ compiler decides type identity with one static_assert(is_same) per block against the definitions in the tree's cmasa.cpp (const on pointees ignored; a subroutine may bind an "
+                      "int-returning C function, MASA's documented convention); every function declared in the extern \"C\" part of the generated masa.h is address-taken from C and linked against the built library; masa.i must be %module masa plus exactly one %include \"masa.h\". "
+                      "Generated half: every evaluator binding is CALLED through a function declared with the Fortran-derived prototype and bound to the same symbol by an asm label (the real declaration is not visible to that translation unit) with rapidcheck-generated "
+                      "arguments, on a solution that provides it, and compared bit for bit with the C++ <double> template given by the naming convention. evaluations = blocks + declarations + 1 + calls; non-trivial = every block/declaration plus every call returning a non-sentinel value."),
+                assumptions=["gfortran and swig are not installed: neither binding can be compiled or run; type identity is decided by the C++ compiler on prototypes derived by a parser for the interface-block subset of Fortran that masa.f90 uses",
+                             "ISO_C_BINDING mapping: real(c_double)->double, integer(c_int)->int, character(c_char)(*)->char*, VALUE->by value, otherwise by reference",
+                             "x86-64 SysV calling convention for the call-through half"],
+                exhaustive=True, min_nontrivial={"quick": 100, "thorough": 100}, timeout={"quick": 600, "thorough": 2400})
+
+
+CHECKS["C18"] = c18_check()
